@@ -641,6 +641,23 @@ fn complete_parent(i: usize, n: usize) -> usize {
     }
 }
 
+/// Returns the parent index of a node at index `i` in a complete binary tree of size `n`, or
+/// `None` if `i` has no parent inside the tree, i.e. if `i` is the root of the tree.
+///
+/// Unlike [`complete_parent`] this never panics, so it can be used on indices and tree sizes
+/// that stem from an untrusted source.
+pub(crate) fn checked_complete_parent(i: usize, n: usize) -> Option<usize> {
+    let mut i = i;
+    loop {
+        // `usize::MAX` has no unset bit left and hence no further ancestor.
+        let zero = last_set_bit(i.checked_add(1)?);
+        i = (zero | i) & !(zero << 1);
+        if i < n {
+            break Some(i);
+        }
+    }
+}
+
 /// Returns the left child index of a node at index `p` of a complete binary tree.
 ///
 /// Note: `complete binary tree` here refers to a tree in which all left subtrees
@@ -699,8 +716,9 @@ fn is_branch(i: usize) -> bool {
 /// `j` is said to fall inside the tree if `j < n`.
 #[inline]
 fn is_leaf_index_in_tree(i: usize, n: usize) -> bool {
-    let j = leaf_index_to_tree_index(i);
-    is_tree_index_in_tree(j, n)
+    // A leaf index whose tree index does not fit into a `usize` cannot be inside any tree.
+    i.checked_mul(2)
+        .is_some_and(|j| is_tree_index_in_tree(j, n))
 }
 
 /// Returns if a tree index `i` is part of  tree.
